@@ -27,7 +27,7 @@ def requests():
     ]
 
 
-def eval_body(stmts, den, sens, extra):
+def eval_body(stmts, den, sens, extra, defs=None):
     """symbolic value of *denominator_iter after a straight-line loop body"""
     g, s = sympy.Symbol("g", real=True), sympy.Symbol("s", positive=True)
     cur = g
@@ -43,6 +43,10 @@ def eval_body(stmts, den, sens, extra):
             return sympy.Integer(n.get("v"))
         if n.k == "FloatingLiteral":
             return sympy.nsimplify(n.get("v"), rational=True)
+        if n.k == "DeclRefExpr" and n.get("dk") in ("local", "staticlocal") and defs is not None:
+            init = defs.single_def(n.get("d"))  # a named constant: `static const float lower_bound_factor = 1 / 10.F;`
+            if init is not None:
+                return ex(init)
         if n.k == "BinaryOperator" and n.op in ("+", "-", "*", "/"):
             a, b = ex(n.c[0]), ex(n.c[1])
             if n.op == "/":
@@ -298,7 +302,7 @@ def run(ctx):
         stmts = [s for s in (body.c if body.k == "CompoundStmt" else [body])]
         try:
             extra = {}
-            val, g, s = eval_body(stmts, "*v%d" % den_it, "*v%d" % sens_it, extra)
+            val, g, s = eval_body(stmts, "*v%d" % den_it, "*v%d" % sens_it, extra, defs)
         except ValueError as ex:
             ctx.unrec(f.qn, "MAP denominator loop at line %d: %s" % (lp.line, ex))
             continue
